@@ -281,6 +281,34 @@ def check_configured(sh, doc, text, rng, via):
             sh.count('obs.partial_checks')
             if got != want:
                 sh.violation('partial', f'partial:wrong-text:{kind}.{what}', f'got {got[:80]!r}, expected {want!r}', case)
+    # the handler table is a plain class attribute: it is edited directly AFTER the first renderings (entry replaced,
+    # entry removed, whole table rebound); what the elements render follows the table as it is now
+    for what, cls_, handled in (('sql', PartS, hs), ('dbml', PartD, hd)):
+        how = rng.choice(['assign', 'delete', 'rebind'])
+        kinds_here = sorted({type(el) for _k, el in els if hasattr(type(el), what)}, key=lambda c: c.__name__)
+        if not kinds_here:
+            continue
+        kx = rng.choice(kinds_here)
+        if how == 'assign':
+            cls_.model_renderers[kx] = (lambda model, what=what: f'<{what}:edited>')
+            wantx = f'<{what}:edited>'
+        elif how == 'delete':
+            cls_.model_renderers.pop(kx, None)
+            wantx = ''
+        else:
+            cls_.model_renderers = {kx: (lambda model, what=what: f'<{what}:rebound>')}
+            wantx = f'<{what}:rebound>'
+        for kind, el in els:
+            if type(el) is not kx:
+                continue
+            try:
+                got = getattr(el, what)
+            except Exception as e:  # noqa
+                sh.violation('partial', f'partial:raises-after-table-edit:{kind}.{what}:{type(e).__name__}', f'{e}', case)
+                continue
+            sh.count('obs.partial_checks_after_table_edit')
+            if got != wantx:
+                sh.violation('partial', f'partial:stale-handler-after-{how}:{kind}.{what}', f'handler table edited ({how}) after first use: got {got[:60]!r}, expected {wantx!r}', case)
     try:
         if db2.sql != 'PARTDB' or db2.dbml != 'PARTDB':
             sh.violation('partial', 'partial:db-not-routed', 'database text not produced by the partial renderer', case)
@@ -295,6 +323,31 @@ def check_detached(sh, doc, rng):
     log = []
     RecSQL, RecDBML = recording_classes(log)
     db = apibuild.build(doc, sql_renderer=RecSQL, dbml_renderer=RecDBML)
+    # a reference deleted by handing in an EQUAL reference: the one that left db.refs is the detached one
+    from pydbml.classes import Reference
+    for real in [r for r in db.refs][:3]:
+        try:
+            twin = Reference(real.type, list(real.col1), list(real.col2), name=real.name, comment=real.comment, on_update=real.on_update,
+                             on_delete=real.on_delete, inline=real.inline)
+            if twin != real or db.refs.index(twin) != db.refs.index(real):
+                continue
+            db.delete(twin)
+        except Exception:  # noqa
+            continue
+        if any(x is real for x in db.refs):
+            continue
+        for what, R in (('sql', DefaultSQLRenderer), ('dbml', DefaultDBMLRenderer)):
+            log.clear()
+            try:
+                got = getattr(real, what)
+                want = R.render(real)
+            except Exception:  # noqa
+                continue
+            sh.count('obs.detached_checks')
+            sh.count('obs.detached_via_equal_copy')
+            if log or got != want or real.database is not None:
+                sh.violation('detached', f'detached:ref-deleted-via-equal-copy.{what}', f'the reference that left db.refs still renders through the database renderers ({len(log)} calls) / keeps its database link',
+                             {'kind': 'detached', 'case_seed': getattr(sh, 'case_seed', None)})
     victims = [('enum', e) for e in db.enums] + [('group', g) for g in db.table_groups]
     if db.project is not None:
         victims.append(('project', db.project))
